@@ -130,10 +130,14 @@ def call_live(mod, fn):
     return res
 
 
-def updated_definition(func, traces, strategy):
+def updated_definition(func, traces, strategy, lost=None):
     """get_updated_definition, or - when it raises - a stand-in definition no live function mirrors plus the message
     (the CLI would produce no stub at all: the property predicate is false on that behaviour)"""
     from monkeytype.stubs import FunctionDefinition, FunctionKind, get_updated_definition
+    if lost is not None:
+        real, msg = lost
+        sig = inspect.Signature([inspect.Parameter("no_definition_for_this_function", inspect.Parameter.POSITIONAL_OR_KEYWORD)])
+        return FunctionDefinition(real.__module__, real.__qualname__, FunctionKind.MODULE, sig, False), msg
     try:
         return get_updated_definition(func, traces, 0, None, strategy), None
     except Exception as e:
@@ -170,7 +174,28 @@ def defs_live(fx, sc):
                     call_live(mods[fn["module"]], fn)
                 except Exception as e:   # a call we could not make is simply not traced
                     notes.append(f"call of {fn['module']}.{'.'.join(fn['path'] + [fn['name']])} raised {type(e).__name__}")
+        import threading
+        late = sc.get("after_block") or []
+
+        def run_late():
+            for fn in late:
+                try:
+                    call_live(mods[fn["module"]], fn)
+                except Exception:
+                    pass
+        th = threading.Thread(target=run_late)
+        th.start()
+        th.join()
+        expected_quals = {(f.__module__, f.__qualname__) for f in by_func}
         index = {f: ts for f, ts in logger.index.items() if f in by_func}
+        # everything else the logger holds appears in the stub without having been traced inside the block
+        for f, ts in logger.index.items():
+            if f not in by_func and (f.__module__, f.__qualname__) not in expected_quals:
+                d, raised = updated_definition(f, ts, strategy)
+                if raised is None:
+                    defs.append(d)
+                notes.append(f"UNTRACED-IN-STUB: {f.__module__}.{f.__qualname__} was never called inside the trace_calls block "
+                             f"(it ran in a thread started after the block ended) but the logger holds a trace of it")
         try:
             ref_stubs = logger.get_stubs()
         except Exception as e:
@@ -238,7 +263,7 @@ def defs_store(mod, modname, fns, strategy_name):
                                   get_updated_definition)
     from monkeytype.tracing import CallTrace
     strategy = ExistingAnnotationStrategy[strategy_name]
-    notes, rt_traces, by_qual = [], [], {}
+    notes, rt_traces, by_qual, undecodable = [], [], {}, {}
     for fn in fns:
         func = resolve(mod, fn["path"], fn["name"])
         by_qual[".".join(fn["path"] + [fn["name"]])] = (fn, func)
@@ -246,15 +271,26 @@ def defs_store(mod, modname, fns, strategy_name):
             t = CallTrace(func, {k: type_by_name(v, mod) for k, v in tr["args"].items()},
                           type_by_name(tr["ret"], mod) if tr["ret"] else None,
                           type_by_name(tr["yield"], mod) if tr["yield"] else None)
-            rt_traces.append(CallTraceRow.from_trace(t).to_trace())
+            try:
+                rt_traces.append(CallTraceRow.from_trace(t).to_trace())
+            except Exception as e:
+                # the CLI logs "Failed decoding trace" and goes on: the function is then simply missing from the stub
+                undecodable.setdefault(".".join(fn["path"] + [fn["name"]]), f"{type(e).__name__}: {e}")
     index = {}
     for t in rt_traces:
         index.setdefault(t.func, set()).add(t)
     fcs, defs = [], []
     any_raised = False
-    for func, traces in index.items():
+    decoded = {f.__qualname__ for f in index}
+    items = [(func, traces, None) for func, traces in index.items()]
+    items += [(by_qual[q][1], set(), msg) for q, msg in undecodable.items() if q not in decoded]
+    for func, traces, lost in items:
         fn, real = by_qual[func.__qualname__]
-        d, raised = updated_definition(func, traces, strategy)
+        if lost is None:
+            d, raised = updated_definition(func, traces, strategy)
+        else:
+            d, raised = updated_definition(None, None, strategy, lost=(real, f"the stored trace of {modname}.{real.__qualname__} "
+                                           f"cannot be decoded ({lost}); the CLI skips the row, the function gets no stub"))
         if raised is None:
             defs.append(d)
         any_raised = any_raised or raised is not None
@@ -441,7 +477,7 @@ def fn_record(modname, spec, rnd):
         traces.append({"args": args, "ret": force.get("return") or rnd.choice([None, "int", "NoneType"]),
                        "yield": "int" if is_gen else None})
     return {"module": modname, "path": spec.path, "name": spec.name, "gt_kind": spec.fkind, "flavour": spec.flavour,
-            "gt_params": gt_params, "traces": traces, "wraps": getattr(spec, "wraps", 0)}
+            "gt_params": gt_params, "traces": traces, "wraps": getattr(spec, "wraps", 0), "deco": getattr(spec, "deco", "_deco")}
 
 
 def nested(fn):
@@ -475,10 +511,15 @@ def live_scenarios(rnd, tier, tag):
             picks.append(meta)
             picks.append([f for f in meta if f["name"] == "describe"])
         for k, sub in enumerate(picks):
+            if k == 1 and i % 3 == 0:
+                # really traced: the tracer also records the hand-written wrappers themselves (local functions, which
+                # StubIndexBuilder cannot look up again); those shapes belong to the store-path scenarios
+                sub = [f for f in sub if f.get("deco") != "_plain_deco"]
             if not sub:
                 continue
             sc = {"kind": "live", "modules": [m], "traced": sub, "strategy": rnd.choice(STRATEGIES),
                   "real_calls": k == 1 and i % 3 == 0,
+                  "after_block": [f for f in fns if f not in sub and not f.get("wraps") and f["flavour"] == "plain"][:3],
                   # as the CLI does: traces stored, looked up again by module and qualname
                   "store": k in (0, 2) or (k == 1 and i % 3 == 1)}
             scs.append(sc)
@@ -588,9 +629,12 @@ def grammar_cases(rnd, tier):
 
 # --------------------------------------------------------------------------------------------------
 def describe_failure(c):
+    for n in c.get("notes", []):
+        if n.startswith("UNTRACED-IN-STUB") and f": {c['module']}." in n:
+            return f"stub of {c['module']}: " + n[len("UNTRACED-IN-STUB: "):]
     for fc in c["funcs"]:
         if fc.get("raised"):
-            return f"no stub for {c['module']}: {fc['raised']}"
+            return f"stub of {c['module']}: {fc['raised']}"
     for fc in c["funcs"]:
         # the FunctionDefinition itself (before any rendering): a method's receiver must not pick up a traced type
         ps = list(fc["defn"].signature.parameters.values())
